@@ -48,6 +48,7 @@ class VLoop(base_events.BaseEventLoop):
         self.stall_count = 0
         self.tie_count = 0
         self.tie_seq = 0
+        self.on_add_reader = None
         self.on_tick = None  # optional invariant monitor, called once per iteration
         self._vheap: list = []
         self._vseq = 0
@@ -65,6 +66,8 @@ class VLoop(base_events.BaseEventLoop):
 
     def add_reader(self, fd, cb, *args):
         self._readers[fd] = (cb, args)
+        if self.on_add_reader is not None:  # a kernel reports pending bytes as soon as somebody listens (again)
+            self.on_add_reader(fd)
 
     def remove_reader(self, fd):
         return self._readers.pop(fd, None) is not None
